@@ -90,3 +90,8 @@ claim("C17",
       "Decides the clauses of the LED statement that are not a colour function: MIDI-input tracking marks a key only under a dominating velocity != 0 test and clears it for Note Off and for Note On with velocity 0, under the tracker mutex; no write into the LED array goes through the zero default of a failed map lookup (indices are loop indices or come from the hit edge of a comma-ok lookup); after the refresh loop every LED is set to red and the frame is sent on every exit; panic replaces the external highlight map; all device-state reads of a frame and the UpdateLEDs call lie in one critical section of the event mutex (external notes under their own mutex); the LED transposition offset has the same affine int form as NoteOn's. The colour function itself (which colour each LED shows in each state/layout) is NOT decided: that would be evaluating a 170-line value-level function, i.e. testing.",
       COMMON_NOTE + " len(dev.Colors) == len(dev.LEDs) per the OpenRGB protocol.",
       "dominating-guard rules, index-origin classification and must-lockset analysis over go/ssa; affine-form comparison between sibling computations")
+
+claim("C06",
+      "Decides the structural parts of the analog transfer function: deadzone precedence (axis-specific, then sub-handler default, then global default, each only after the previous miss; the parser writes a default for every sub-handler it writes mappings for), the literal rest value 0 inside the deadzone, the final scaling stage (Control Change value = trunc(127*a) with a = |v|, (v+1)/2, |2v-1|, v for the four signed x bidirectional cases; the pitch-bend argument v resp. 2v-1; the 14-bit encoder mapping -1 -> 0, 0 -> 8192, +1 -> 16383 - each evaluated abstractly on the SSA return/argument terms at the end points and centre), and consistent keying of duplicate suppression. NOT decided: accuracy within one step, monotonicity and exact end stops through the floating-point deadzone rescale, 16-bit/hat sampling.",
+      COMMON_NOTE + " IEEE-754 evaluation of the final affine stage at three points uses Go's float64.",
+      "path-effect enumeration over go/ssa + abstract evaluation of numeric SSA terms at end points/centre + phi-edge constant rule")
